@@ -383,7 +383,7 @@ fn run_case(env: &Env, idx: usize, c: &Case, out: &mut Buf) {
         let ok_status = r.status == Some(0) || r.status == Some(1);
         let any_viol = idxs.iter().any(|i| !fix_vs[*i].is_empty());
         let unfix = idxs.iter().any(|i| fix_vs[*i].iter().any(|v| !v.fixable));
-        let mut writes: Vec<(usize, u8)> = vec![];
+        let mut writes: Vec<(usize, bool, bool, bool)> = vec![];
         let mut bad_content: Option<usize> = None;
         let mut touched_unexpected: Option<usize> = None;
         for i in 0..c.files.len() {
@@ -391,9 +391,7 @@ fn run_case(env: &Env, idx: usize, c: &Case, out: &mut Buf) {
             let content = std::fs::read_to_string(&f).unwrap_or_default();
             let written = std::fs::metadata(&f).and_then(|m| m.modified()).ok() != Some(old_time());
             let listed = idxs.contains(&i);
-            if written {
-                writes.push((i, if listed && content == fixed[i] { 1 } else { 2 }));
-            }
+            writes.push((i, content == fixed[i], content == c.files[i], written));
             let want: &str = if listed && any_viol { &fixed[i] } else { &c.files[i] };
             if content != want {
                 bad_content = Some(i);
@@ -419,7 +417,7 @@ fn run_case(env: &Env, idx: usize, c: &Case, out: &mut Buf) {
             g_list(idxs.iter().map(|i| format!("{{| f_id := {}; f_viols := {}; f_fixed := 1 |}}", i, g_list(fix_vs[*i].iter().map(|v| v.g())))))
         );
         let exp = if ok_status {
-            format!("(Some ({},{}))", r.status.unwrap(), g_list(writes.iter().map(|(i, t)| format!("({},{})", i, t))))
+            format!("(Some ({},{}))", r.status.unwrap(), g_list(writes.iter().map(|(i, a, b, t)| format!("({},{},{},{})", i, g_bool(*a), g_bool(*b), g_bool(*t)))))
         } else {
             "None".to_string()
         };
